@@ -1,12 +1,26 @@
 ENGINES = [
     {"name": "fragcheck", "path": "/verif/fragcheck", "serves_properties": ["C01", "C05"],
      "kind_free_text": "fragment contracts of Expr.__teal__: real method executed on opaque child proxies, symbolic execution of the returned block graph against the documented meaning (z3, uninterpreted child semantics, cut-point simulation for loops)"},
-    {"name": "pyvc", "path": "/verif/pyvc", "serves_properties": ["C02", "C03", "C04", "C16"],
+    {"name": "pyvc", "path": "/verif/pyvc", "serves_properties": ["C02", "C03", "C04", "C06", "C07", "C16"],
      "kind_free_text": "symbolic executor of a Python subset over the real source (ast re-read on every run) with sidecar contracts, loop invariants, callee contracts; VCs discharged by z3 (cvc5 for unknowns)"},
 ]
 NOTES = "Obligation kinds P/E/F are counted as proved; B (bounded stand-ins) are labelled and never counted. See DESIGN.md."
 NOT_APPLICABLE = {}
 CHECKS = {
+    "C06": {
+        "level": "other", "engine": "pyvc",
+        "technique": "contracts on the ARC-4 layout arithmetic (pyvc loop invariants against an independent element-by-element position function, z3) + bounded stand-in against the reference codec algosdk.abi",
+        "text": "_bool_sequence_length, _consecutive_thing_num and _bool_aware_static_byte_length are proved for every type sequence: the static length equals the ARC-4 position function (bool packing included). Type strings, dynamic-ness, static lengths and the bytes produced by set()/encode() are compared with algosdk.abi for generated shapes and boundary-biased values at versions 5..10, in the main routine and inside subroutines (bounded). Out-of-range integers: rejected as Python ints, failing as expressions (bounded).",
+        "note": "trusted: algosdk.abi, the position-function spec, TypeSpec interface contracts for element types (is_dynamic, byte_length_static as uninterpreted functions). The Expr layer of _encode_tuple is not yet under contract.",
+        "design_ref": "DESIGN.md 5/C06",
+    },
+    "C07": {
+        "level": "other", "engine": "pyvc",
+        "technique": "layout contracts shared with C06 (pyvc) + bounded stand-in: decode / element access on generated shapes, values and positions against algosdk.abi on the spec AVM",
+        "text": "For generated type shapes and values every tuple / array position (constant and computed index), get(), length() and the decode-encode round trip are compared with the reference encoding of the component; out-of-range indices must fail. Three classes of non-failing out-of-range accesses are known findings. _index_tuple's offset arithmetic is not yet discharged deductively.",
+        "note": "mostly bounded (labelled); proof part limited to the shared layout helpers.",
+        "design_ref": "DESIGN.md 5/C07",
+    },
     "C04": {
         "level": "other", "engine": "pyvc",
         "technique": "contracts on verifyOpsForVersion / verifyOpsForMode / verifyProgramVersion (pyvc loop invariants, z3) + exhaustive table comparison of Op / TxnField / GlobalField with an independent langspec + bounded structural validation of emitted TEAL",
